@@ -1,11 +1,10 @@
 SPECIFICATION Spec
 CONSTANTS
   Prios = {1, 2, 3}
-  MaxH = 4
-  MaxLive = 4
+  MaxH = 5
+  MaxLive = 5
   InitSeqs <- InitSeqsThorough
 INVARIANTS HeapOrder NoDup
 PROPERTY Refines
 VIEW View
 CHECK_DEADLOCK FALSE
-ACTION_CONSTRAINT Emit
